@@ -717,7 +717,75 @@ def run_plain_lifted_plain(ctx, i, rng):
       ctx.check(close(y, y_ref), 'published_once:later_plain_call_sees_stale_state', lambda: dict(case=desc))
 
 
+def run_collection_names(ctx, i, rng):
+  """Differentiated collections whose NAMES contain one another ('params' inside 'lora_params', 'p' inside 'params', 'params'
+  a prefix of 'params_extra'): `vjp_variables` / `variables` given as a plain string, a list or a tuple select exactly the named
+  collections - the cotangent has those keys and the values of jax.vjp w.r.t. exactly those collections, and nn.jvp with
+  variable_tangents for one of them equals jax.jvp. (Round h: every earlier stream used the stock names.)"""
+  import jax
+  import jax.numpy as jnp
+  import flax.linen as nn
+  from flax.core import unfreeze
+  names = ['params', 'lora_params', 'p', 'params_extra']
+  sel = [['lora_params'], ['params_extra'], ['params'], ['p'], ['lora_params', 'p'], ['params_extra', 'params']][i % 6]
+  form = ['str', 'list', 'tuple'][(i // 6) % 3]
+  if form == 'str' and len(sel) > 1:
+    form = 'tuple'
+  api = ['vjp', 'jvp'][(i // 18) % 2]
+  spec = sel[0] if form == 'str' else list(sel) if form == 'list' else tuple(sel)
+  desc = dict(selected=sel, form=form, api=api)
+  with ctx.case('collection_names', i, desc, nontrivial=True):
+    class Inner(nn.Module):
+      @nn.compact
+      def __call__(self, x):
+        ws = [self.variable(c, 'w', lambda k=k: jnp.full((3,), 0.5 + 0.25 * k)).value for k, c in enumerate(names)]
+        y = x
+        for k, w in enumerate(ws):
+          y = jnp.tanh(y * w + 0.1 * k)
+        return y
+
+    class Top(nn.Module):
+      @nn.compact
+      def __call__(self, x, ct, vt):
+        inner = Inner(name='inner')
+        if self.is_initializing():
+          return inner(x)
+        if api == 'vjp':
+          y, bwd = nn.vjp(lambda m, a: m(a), inner, x, vjp_variables=spec)
+          return y, bwd(ct)
+        return nn.jvp(lambda m, a: m(a), inner, (x,), (jnp.zeros_like(x),), vt)
+
+    nr = np.random.default_rng(i)
+    x = jnp.asarray(nr.uniform(-1, 1, (3,)).astype(np.float32))
+    ct = jnp.asarray(nr.uniform(0.5, 1, (3,)).astype(np.float32))
+    V = Top().init(jax.random.key(0), x, ct, None)
+    V = jax.tree_util.tree_map(lambda a: a + jnp.asarray(nr.uniform(0.0, 0.3, a.shape).astype(np.float32)), V)
+    sub = {c: V[c]['inner'] for c in V}
+    vt = {c: {'w': jnp.asarray(nr.normal(size=(3,)).astype(np.float32))} for c in sel}
+
+    def pure(dv, a):
+      return Inner().apply({**sub, **dv}, a)
+    dsel = {c: sub[c] for c in sel}
+    out = Top().apply(V, x, ct, vt)
+    ctx.op('nn.%s(collection names that contain one another)' % api)
+    if api == 'jvp':
+      y, yt = out
+      y_r, yt_r = jax.jvp(pure, (dsel, x), (vt, jnp.zeros_like(x)))
+      ctx.check(close(y, y_r) and close(yt, yt_r), 'collection_names:jvp_values', lambda: dict(case=desc))
+      return
+    y, (g_vars, g_x) = out
+    y_r, bw = jax.vjp(pure, dsel, x)
+    gv_r, gx_r = bw(ct)
+    g_vars = unfreeze(g_vars)
+    ctx.check(sorted(g_vars) == sorted(sel), 'collection_names:cotangent_for_unselected_collection',
+              lambda: dict(case=desc, got=sorted(g_vars)))
+    ctx.check(close(y, y_r) and close(g_x, gx_r) and all(c in g_vars and close(g_vars[c], gv_r[c]) for c in sel),
+              'collection_names:values', lambda: dict(case=desc))
+
+
 def run(ctx):
+  for i in ctx.indices(36, 'collection_names'):
+    run_collection_names(ctx, i, ctx.rng('collection_names', i))
   for i in ctx.indices(36 if ctx.tier == 'quick' else 108, 'plain_lifted_plain'):
     run_plain_lifted_plain(ctx, i, ctx.rng('plain_lifted_plain', i))
   for i in ctx.indices(24 if ctx.tier == 'quick' else 72, 'attr_modules'):
